@@ -61,6 +61,7 @@ func runC16(r *Run) {
 	c16GuardedStores(r)
 	reasons := c16Agreement(r)
 	c16Deref(r, reasons)
+	c16Imports(r)
 }
 
 func c16Debug() bool { return os.Getenv("D_DEBUG") != "" }
